@@ -58,6 +58,14 @@ def fit_underdetermined_dispatch(vc, cfg):
     ok = a is not None and a[0] is est.A and a[1] is B and a[2].get("lb") is est.lb and a[2].get("ub") is est.ub and a[2].get("W") is est.W \
         and a[2].get("K") is est.K and a[2].get("baseline") is est.baseline and a[2].get("underdetermined_opt") == "var" and a[2].get("l2_eps") == 0.5
     vc.prove("passes-registered-state-and-options", bool(ok))
+    # every option value reaches the fitting routine unchanged (a number must stay a number: it selects
+    # 'total intensity closest to a value', an array selects 'intensities closest to a vector')
+    vec = vc.array("optvec", (ns,))
+    for tag, opt in (("number", 2.5), ("int", 3), ("vector", vec), ("string", "max"), ("none", None)):
+        with loader.stub(E, "lsq_linear_underdetermined", stub, vc):
+            o = vc.call(est.fit_underdetermined, B, underdetermined_opt=opt)
+        got = seen["a"][2].get("underdetermined_opt") if o.ok else "<raised>"
+        vc.prove(f"option-passed-unchanged[{tag}]", o.ok and got is opt and type(got) is type(opt), detail=f"{type(got).__name__}: {got!r}")
     est.A = vc.array("A2", (2, 2))
     o = vc.call(est.fit_underdetermined, B)
     vc.prove("rejects-a-system-that-is-not-underdetermined", o.raised(AssertionError))
